@@ -23,12 +23,14 @@ def verify_F(prop):
     from .. import frame
     from ..contracts.frames import FRAMES
     out = []
-    for mod, qual, modifies, fresh, props in FRAMES:
+    for entry in FRAMES:
+        mod, qual, modifies, fresh, props = entry[:5]
+        may_share = entry[5] if len(entry) > 5 else ()
         if prop not in props:
             continue
         t0 = time.time()
         try:
-            obl, s = frame.check_frame(mod, qual, modifies, fresh)
+            obl, s = frame.check_frame(mod, qual, modifies, fresh, may_share)
         except Exception as e:
             out.append(Verdict('frame', 'F', 'undecided', f'analysis error: {type(e).__name__}: {e}', time.time() - t0, f'{mod}.{qual}', 'frame'))
             continue
